@@ -4,7 +4,7 @@ Spec: spec/SessionOps.tla (values, module files, what a require form denotes),
 spec/Session.tla (interpreters, module loader as a sub-step machine, command
 alphabet), cfgs Session_one / Session_two / Session_wide / Session_pinned,
 Session_env1 / Session_env2 / Session_pinnedenv, Session_dirs / Session_nest /
-Session_fails / Session_pinnedhost (round 3).
+Session_fails / Session_pinnedhost / Session_pinnednest (round 3).
 
 Binding A (replay along the state graph): TLC explores Session.tla and prints
 every command-level transition (EDGE: idle state, command, predicted outcome,
@@ -284,6 +284,7 @@ class Sessions:
         self.interps = list(interps)
         self.it = {}
         self.child = {}
+        self.loadlog = {}
         self.moddir = None
         self.base_names = set()
         for i in interps:
@@ -319,7 +320,8 @@ class Sessions:
         it = self.it[i]
         it.base_environment.put("checkerlang_module_path",
                                 V.ValueList().addItem(V.ValueString(self.dir_of(i))))
-        it.base_environment.put("loadlog", V.ValueList())
+        self.loadlog[i] = V.ValueList()
+        it.base_environment.put("loadlog", self.loadlog[i])
         if not self.base_names:
             self.base_names = set(it.base_environment.getSymbols())
         return self.run(i, "def secret = 1")
@@ -598,13 +600,12 @@ def diagnostics(sess, i, key, loadcap):
     base = it.base_environment
     # private attributes of the implementation: a diagnostic whose attribute is
     # not there (renamed, restructured) is dropped, never an error of the check
-    stack, cache, logv = (getattr(base, "modulestack", None), getattr(base, "modules", None),
-                          (scope_map(base) or {}).get("loadlog"))
-    lost = [n for n, x, t in (("modulestack", stack, list), ("modules", cache, dict),
-                              ("map['loadlog']", logv, V.ValueList)) if not isinstance(x, t)]
+    stack, cache = getattr(base, "modulestack", None), getattr(base, "modules", None)
+    logv = sess.loadlog[i]              # the list the harness itself put into the base environment
+    lost = [n for n, x, t in (("modulestack", stack, list), ("modules", cache, dict)) if not isinstance(x, t)]
     if lost:
         d.append(("diag:unavailable", f"no {' / '.join(lost)} on the base environment: "
-                                      f"stack / cache / load-counter diagnostics dropped"))
+                                      f"that diagnostic is dropped"))
     if "e" in key and scope_map(sess.kept) is not None and ("ev" in sess.kept.map) != bool(key["e"]):
         d.append(("diag:callerenv", f"the caller's environment holds {sorted(sess.kept.map)}, spec ev={key['e']}"))
     if "ne" in key and scope_map(sess.inner) is not None and ("ev" in sess.inner.map) != bool(key["ne"]):
@@ -614,9 +615,9 @@ def diagnostics(sess, i, key, loadcap):
         d.append(("diag:callerenv", "a root environment of the caller is still attached after the call"))
     if hasattr(sess.inner, "parent") and (sess.inner.parent is not sess.outer or sess.leaf.parent is not sess.inner):
         d.append(("diag:callerenv", "the caller's chain outer <- inner <- leaf was cut by the call"))
-    if lost:
-        return d
-    base = DiagView(stack, cache, logv)
+    wantm = key["m"][i] if key["m"][i] != [] else {}
+    base = DiagView(stack if isinstance(stack, list) else list(key["k"][i]),
+                    cache if isinstance(cache, dict) else {m: None for m in wantm}, logv)
     stack = list(base.modulestack)
     if stack != list(key["k"][i]):
         d.append(("diag:stack", f"{i}: modulestack {stack} but spec {key['k'][i]}"))
@@ -628,7 +629,6 @@ def diagnostics(sess, i, key, loadcap):
             inst.setdefault(k.lower(), {})[id(env)] = k
     loaded = sorted((set(base.modules.keys()) - BUNDLED - set(sum((list(x.values()) for x in inst.values()), [])))
                     | set(inst))
-    wantm = key["m"][i] if key["m"][i] != [] else {}
     if loaded != sorted(wantm):
         d.append(("diag:cache", f"{i}: module cache {loaded} but spec {sorted(wantm)}"))
     log = [x.value for x in base.loadlog.value]
@@ -1146,6 +1146,16 @@ def check_pinned_host(run, ahead):
     return re.findall(r'ReqStart\(\[op \|-> "require", i \|-> "i1", n \|-> "", v \|-> 0, id \|-> "(\w+)"', res.out)
 
 
+def check_pinned_nest(run, ahead):
+    """Round 3: the pinned interpret with a caller environment that has a parent
+    of its own - TLC must find the root (outer) left hanging under a session."""
+    res = ahead.take("Session_pinnednest")
+    run.add_tlc(res, "Session with DetachCallerEnv=FALSE, caller environments with a parent: counterexample expected")
+    if res.ok or "Invariant CallerEnvDetached is violated" not in res.out:
+        raise MachineryError("Session_pinnednest: TLC did not find the expected counterexample")
+    return re.findall(r'op \|-> "(env\w+)", i \|-> "(\w+)", n \|-> "\w*", v \|-> 0, id \|-> "(\w+)"', res.out)
+
+
 def run_walk_job(job, d):
     """The walk runs in a fresh, small process: forking it is cheap."""
     import subprocess
@@ -1281,9 +1291,10 @@ def run(run):
         ahead.graph("Session_env1")
         ahead.graph("Session_env2")
         ahead.start("Session_pinnedhost", **PINNED_KW)
-        ahead.graph("Session_fails")
-        ahead.graph("Session_dirs")
-        ahead.graph("Session_nest")
+        ahead.start("Session_pinnednest", **PINNED_KW)
+        ahead.graph("Session_fails", workers=4)         # (small models: a few workers are enough)
+        ahead.graph("Session_dirs", workers=4)
+        ahead.graph("Session_nest", workers=4)
         run_checks(run, quick, rng, info, ahead)
     finally:
         ahead.close()
@@ -1297,6 +1308,8 @@ def run_checks(run, quick, rng, info, ahead):
     info["pinned_env_counterexample"] = " ; ".join(f"{i}: {op} ({e} environment)" for op, i, e in envs[:4])
     reqs = check_pinned_host(run, ahead)
     info["pinned_host_counterexample"] = "require %s twice" % (reqs[0] if reqs else "?")
+    envs = check_pinned_nest(run, ahead)
+    info["pinned_nest_counterexample"] = " ; ".join(f"{i}: {op} ({e} environment)" for op, i, e in envs[:4])
 
     def go(cfg, interps, label, *modes):
         """modes: (name, mode, params)"""
